@@ -13,6 +13,7 @@ PROP = {
     "jobs": [
         {"component": "endpoint", "comp_num": 7, "quick": 1600, "thorough": 60000, "timeout": 3000},
         {"component": "net", "comp_num": 70, "quick": 480, "thorough": 30000, "args": ["--stream", "1"], "timeout": 3000},
+        {"component": "net", "comp_num": 70, "quick": 480, "thorough": 30000, "args": ["--stream", "7"], "timeout": 3000},
     ],
     "design_ref": "DESIGN.md section 5, C10",
     "level_text": "Theorems (Coq, closed under the global context) on the endpoint model, for every interleaving incl. an arbitrary peer: a connect request is "
@@ -27,6 +28,9 @@ PROP = {
                   "queue by construction) but not proved for the composed system; resolution at quiescence relies on C03/C07. Cancelled connect/accept "
                   "futures are covered by the request life cycle (dropped request => rejected) in the model and by the lifecycle stream.",
     "trivial_sig": r"malformed",
-    "rule": _EP_RULE + " net stream 1: connects and exhaustion policies as described in level_text.",
+    "rule": _EP_RULE + " net stream 1: connects and exhaustion policies as described in level_text. net stream 7: an accept / reject future cancelled "
+            "while it waits for a slot of the full event queue (one slot, stalled transport): the request must still resolve (as rejected) and the dispatchers must "
+            "end Ok once everything is dropped; PortsExhausted::Wait(Some(limit)) with free ports and a listener answering after 4 x limit: the connect must wait for "
+            "the answer; exactly connect_queue unanswered requests in an unpolled listener when all remote clients are dropped: no protocol error, every request resolves.",
     "assumptions": ["paused-clock quiescence barrier"],
 }
